@@ -25,7 +25,9 @@ def parseEnumValue (j : Json) : Except String EnumValue := do
 
 def parseDataType (j : Json) : Except String DataType := do
   let vs ← j.getObjValAs? (Array Json) "values"
-  pure { uuid := ← getStr j "uuid", longName := ← getStr j "long_name", values := ← vs.toList.mapM parseEnumValue }
+  let isEnum := match j.getObjValAs? Bool "is_enum" with | .ok b => b | .error _ => true
+  pure { uuid := ← getStr j "uuid", longName := ← getStr j "long_name", values := ← vs.toList.mapM parseEnumValue,
+         isEnum := isEnum }
 
 def parseAttrDef (j : Json) : Except String AttrDef := do
   let dt ← match optObj j "data_type" with
@@ -72,7 +74,40 @@ partial def parseFolder (j : Json) : Except String Folder := do
   let fs ← j.getObjValAs? (Array Json) "folders"
   pure (.mk (← reqs.toList.mapM parseReq) (← fs.toList.mapM parseFolder))
 
+/-- the observed iteration order of the sets: per requirement type key the `(definition uuid, kind)` pairs -/
+def parseOrder (j : Json) : Except String (List (Option Str × List (Option Str × Str))) := do
+  match optObj j "set_order" with
+  | none => pure []
+  | some o =>
+    let rows ← o.getArr?
+    rows.toList.mapM fun r => do
+      let k := (optObj r "type").bind fun v => match v with | .str s => some s.toList | _ => none
+      let ds ← r.getObjValAs? (Array Json) "defs"
+      let ds ← ds.toList.mapM fun d => do
+        let u := (optObj d "def").bind fun v => match v with | .str s => some s.toList | _ => none
+        pure (u, ← getStr d "kind")
+      pure (k, ds)
+
+def indexOf? {α : Type} [DecidableEq α] (a : α) : List α → Nat
+  | [] => 0
+  | b :: l => if a = b then 0 else indexOf? a l + 1
+
+/-- the rearrangement of a set described by the observed order (keys that were not observed go last) -/
+def orderFrom (obs : List (Option Str × List (Option Str × Str))) (k : Option Str) (l : List ADKey) : List ADKey :=
+  match obs.find? (fun r => r.1 = k) with
+  | none => l
+  | some r =>
+    let pos (x : ADKey) : Nat := indexOf? (x.1.map (·.uuid), x.2.name) r.2
+    sortBy (fun a b => pos a ≤ pos b) l
+
+theorem orderFrom_perm (obs) (k : Option Str) (l : List ADKey) : (orderFrom obs k l).Perm l := by
+  unfold orderFrom
+  split
+  · exact .refl _
+  · exact sortBy_perm _ _
+
 def parseModule (j : Json) : Except String Reqif.Module := do
+  let obs ← parseOrder j
   let t ← match optObj j "type" with
     | some t => pure (some { uuid := ← getStr t "uuid", longName := ← getStr t "long_name" : ModType })
     | none => pure none
@@ -80,7 +115,8 @@ def parseModule (j : Json) : Except String Reqif.Module := do
   let fs ← j.getObjValAs? (Array Json) "folders"
   pure { modelUuid := ← getStr j "model_uuid", uuid := ← getStr j "uuid", longName := ← getStr j "long_name",
          description := ← getStr j "description", type := t,
-         reqs := ← reqs.toList.mapM parseReq, folders := ← fs.toList.mapM parseFolder }
+         reqs := ← reqs.toList.mapM parseReq, folders := ← fs.toList.mapM parseFolder,
+         setOrder := orderFrom obs, setOrder_perm := orderFrom_perm obs }
 
 def parseXhtml (j : Json) : Except String (Str → Option Str) := do
   let rows ← j.getObjValAs? (Array Json) "xhtml"
@@ -176,6 +212,7 @@ def handle (op : String) (j : Json) : Except String Json := do
     match «export» x m with
     | .error .assertion => pure (Json.mkObj [("err", "assertion")])
     | .error .parser => pure (Json.mkObj [("err", "parser")])
+    | .error .attribute => pure (Json.mkObj [("err", "AttributeError")])
     | .ok d => pure (Json.mkObj [("doc", jDoc d), ("dfs", jstrs (m.dfs.map (·.uuid)))])
   | "tree" =>
     let m ← parseModule (← j.getObjVal? "module")
@@ -185,6 +222,7 @@ def handle (op : String) (j : Json) : Except String Json := do
     match exportXml x e md m with
     | .error .assertion => pure (Json.mkObj [("err", "assertion")])
     | .error .parser => pure (Json.mkObj [("err", "parser")])
+    | .error .attribute => pure (Json.mkObj [("err", "AttributeError")])
     | .ok t => pure (Json.mkObj [("tree", jXml t), ("idents", jstrs t.idents), ("refs", jstrs t.refTexts)])
   | "decide" =>
     let t : Target := match optObj j "target" with
